@@ -9,9 +9,12 @@
                         (weakening, strengthening, exchange in one statement);
     * `share_check`   : the consumer returned by `share` (compile.rs) checks at the same type, and the
                         definition it lifts checks in its own context (= its typed free variables), provided
-                        the program's definition table maps the generated label to the lifted definition.
+                        the program's definition table maps the generated label to the lifted definition;
+    * `share_ids`, `share_strict` : `share` keeps "all identifiers satisfy Q" and `Term.strict`
+                        (Scc/Core/TypedStrict.lean: cut / μ types declared, clauses in declaration order).
 -/
 import Scc.Core.Typing
+import Scc.Core.TypedStrict
 import Scc.Fun2Core.SemTfv
 import Scc.Fun2Core.Fresh
 
@@ -692,5 +695,43 @@ theorem share_ids {Q : Ident → Prop} {c : Term} {st : CompileState} (hc : allI
       injection hD with h1 _
       subst h1
       exact ⟨hb, htf⟩
+
+/-! ## `strict` (Scc/Core/TypedStrict.lean) along `share` -/
+
+theorem strict_bindingsToArgs (P : Prog) : ∀ (bs : List Binding), (bindingsToArgs bs).strict P = true
+  | [] => by simp [bindingsToArgs, Args.strict]
+  | b :: bs => by simp [bindingsToArgs, Args.strict, Term.strict, strict_bindingsToArgs P bs]
+
+theorem strict_argsSnoc {P : Prog} : ∀ (as : Args) (pc : PC) (t : Term),
+    as.strict P = true → t.strict P = true → (argsSnoc as pc t).strict P = true
+  | .nil, _, _, _, ht => by simp [argsSnoc, Args.strict, ht]
+  | .cons p a r, pc, t, h, ht => by
+    simp only [Args.strict, Bool.and_eq_true] at h
+    simp only [argsSnoc, Args.strict, Bool.and_eq_true]
+    exact ⟨h.1, strict_argsSnoc r pc t h.2 ht⟩
+
+theorem share_strict {P : Prog} {c : Term} {st : CompileState} (hc : c.strict P = true)
+    (hty : tyDeclared P (coreGetType c) = true) :
+    (share c st).1.strict P = true ∧
+    ∀ D, (share c st).2.liftedStatements = D :: st.liftedStatements → D.body.strict P = true := by
+  unfold share
+  split
+  · rename_i pc v ty s
+    simp only [Term.strict, Bool.and_eq_true] at hc
+    refine ⟨?_, ?_⟩
+    · simp only [Term.strict, Stmt.strict, Bool.and_eq_true]
+      exact ⟨hc.1, strict_bindingsToArgs P _⟩
+    · intro D hD
+      injection hD with h1 _
+      subst h1
+      exact hc.2
+  · refine ⟨?_, ?_⟩
+    · simp only [Term.strict, Stmt.strict, Bool.and_eq_true]
+      exact ⟨hty, strict_bindingsToArgs P _⟩
+    · intro D hD
+      injection hD with h1 _
+      subst h1
+      simp only [Stmt.strict, Term.strict, Bool.and_eq_true, and_true]
+      exact ⟨hty, hc⟩
 
 end Scc.Fun2Core.Typed
